@@ -190,10 +190,11 @@ func (c *connection) onProcess(onConnect OnConnect, onRequest OnRequest) (proces
 				return
 			}
 			// cannot use recover() here, since we don't want to break the panic stack
-			c.unlock(processing)
 			if c.IsActive() {
+				c.unlock(processing)
 				c.Close()
 			} else {
+				// keep the processing lock: the close callbacks must run under it, exactly once
 				c.closeCallback(false, false)
 			}
 		}()
